@@ -646,34 +646,107 @@ func blockingCall(c *Ctx, f *ssa.Function, call *ssa.Call) (kind string, ok bool
 	return "", false, ""
 }
 
+// arming is one place in f where a read deadline is armed: a SetReadDeadline call, or a call of a helper of the module that makes
+// that call on every path on which it reports success.
+type arming struct {
+	at  *ssa.Call  // the call in f
+	src *core.Term // the source, in f's vocabulary
+	dur *core.Term // the deadline handed over, in f's vocabulary
+}
+
+// armingHelperCall: the SetReadDeadline call that module function g makes before each of its success returns, or nil.
+func armingHelperCall(g *ssa.Function) *ssa.Call {
+	if g == nil || !core.InModule(g) || len(g.Blocks) == 0 {
+		return nil
+	}
+	var set *ssa.Call
+	for _, b := range g.Blocks {
+		for _, in := range b.Instrs {
+			if cl, ok := in.(*ssa.Call); ok && cl.Common().IsInvoke() && cl.Common().Method.Name() == "SetReadDeadline" {
+				if set != nil {
+					return nil
+				}
+				set = cl
+			}
+		}
+	}
+	if set == nil {
+		return nil
+	}
+	res := g.Signature.Results()
+	for _, b := range g.Blocks {
+		ret, ok := b.Instrs[len(b.Instrs)-1].(*ssa.Return)
+		if !ok || b.Comment == "recover" {
+			continue
+		}
+		if res.Len() > 0 && isErrorType(res.At(res.Len()-1).Type()) {
+			if cst, isC := ret.Results[len(ret.Results)-1].(*ssa.Const); !isC || !cst.IsNil() {
+				continue // a failure return: the caller leaves
+			}
+		}
+		if !set.Block().Dominates(b) {
+			return nil
+		}
+	}
+	return set
+}
+
+func deadlineArmings(c *Ctx, f *ssa.Function) []arming {
+	var out []arming
+	for _, b := range f.Blocks {
+		for _, in := range b.Instrs {
+			cl, ok := in.(*ssa.Call)
+			if !ok {
+				continue
+			}
+			if cl.Common().IsInvoke() {
+				if cl.Common().Method.Name() != "SetReadDeadline" {
+					continue
+				}
+				for _, pa := range firstPath(f, cl.Block()) {
+					env := core.NewEnv(c.P, pa)
+					out = append(out, arming{cl, env.Term(cl.Common().Value), env.Term(cl.Common().Args[0])})
+				}
+				continue
+			}
+			g := cl.Common().StaticCallee()
+			set := armingHelperCall(g)
+			if set == nil {
+				continue
+			}
+			var gsrc, gdur *core.Term
+			for _, gpa := range firstPath(g, set.Block()) {
+				genv := core.NewEnv(c.P, gpa)
+				gsrc, gdur = genv.Term(set.Common().Value), genv.Term(set.Common().Args[0])
+			}
+			if gsrc == nil {
+				continue
+			}
+			for _, pa := range firstPath(f, cl.Block()) {
+				env := core.NewEnv(c.P, pa)
+				out = append(out, arming{cl, liftWithEnv(env, gsrc, cl), liftWithEnv(env, gdur, cl)})
+			}
+		}
+	}
+	return out
+}
+
 // readDeadline: a SetReadDeadline(time.Now().Add(d)) on the same source dominates the read.
 func readDeadline(c *Ctx, f *ssa.Function, read *ssa.Call, src ssa.Value) (bool, string) {
 	srcKey := ""
 	for _, pa := range firstPath(f, read.Block()) {
 		env := core.NewEnv(c.P, pa)
-		srcKey = env.Term(src).Key()
+		srcKey = env.Term(src).String()
 	}
-	for _, b := range f.Blocks {
-		for _, in := range b.Instrs {
-			cl, ok := in.(*ssa.Call)
-			if !ok || !cl.Common().IsInvoke() || cl.Common().Method.Name() != "SetReadDeadline" {
-				continue
-			}
-			if !core.InstrDominates(cl, read) {
-				continue
-			}
-			for _, pa := range firstPath(f, cl.Block()) {
-				env := core.NewEnv(c.P, pa)
-				if env.Term(cl.Common().Value).Key() != srcKey {
-					continue
-				}
-				d := env.Term(cl.Common().Args[0])
-				if d.Op == "call" && d.Name == "(time.Time).Add" && len(d.Args) == 2 && d.Args[0].Op == "call" && d.Args[0].Name == "time.Now" {
-					return true, "SetReadDeadline(time.Now().Add(" + d.Args[1].String() + ")) dominates the read"
-				}
-				return false, "SetReadDeadline is given " + d.String() + ", not time.Now().Add(d)"
-			}
+	for _, ar := range deadlineArmings(c, f) {
+		if !core.InstrDominates(ar.at, read) || ar.src.String() != srcKey {
+			continue
 		}
+		d := ar.dur
+		if d.Op == "call" && d.Name == "(time.Time).Add" && len(d.Args) == 2 && d.Args[0].Op == "call" && d.Args[0].Name == "time.Now" {
+			return true, "SetReadDeadline(time.Now().Add(" + d.Args[1].String() + ")) dominates the read"
+		}
+		return false, "SetReadDeadline is given " + d.String() + ", not time.Now().Add(d)"
 	}
 	return false, "no SetReadDeadline on the same source dominates the read"
 }
@@ -682,23 +755,16 @@ func readDeadline(c *Ctx, f *ssa.Function, read *ssa.Call, src ssa.Value) (bool,
 func governingDeadline(c *Ctx, f *ssa.Function, read *ssa.Call, src ssa.Value) *ssa.Call {
 	srcKey := ""
 	for _, pa := range firstPath(f, read.Block()) {
-		srcKey = core.NewEnv(c.P, pa).Term(src).Key()
+		srcKey = core.NewEnv(c.P, pa).Term(src).String()
 	}
 	var last *ssa.Call
-	for _, b := range f.Blocks {
-		for _, in := range b.Instrs {
-			cl, ok := in.(*ssa.Call)
-			if !ok || !cl.Common().IsInvoke() || cl.Common().Method.Name() != "SetReadDeadline" || !core.InstrDominates(cl, read) {
-				continue
-			}
-			for _, pa := range firstPath(f, cl.Block()) {
-				if core.NewEnv(c.P, pa).Term(cl.Common().Value).Key() == srcKey {
-					// the closest one wins: a later dominating call re-arms the earlier
-					if last == nil || core.InstrDominates(last, cl) {
-						last = cl
-					}
-				}
-			}
+	for _, ar := range deadlineArmings(c, f) {
+		if !core.InstrDominates(ar.at, read) || ar.src.String() != srcKey {
+			continue
+		}
+		// the closest one wins: a later dominating call re-arms the earlier
+		if last == nil || core.InstrDominates(last, ar.at) {
+			last = ar.at
 		}
 	}
 	return last
